@@ -31,6 +31,53 @@ def _cancel(case):
     return len(t) == 5 and t[3] != '-'
 
 
+SIZE_MODULE = 'Scalibr.Properties.C10Trace'
+SIZE_THEOREMS = ['Scalibr.TraceSize.C10_trace_sizes', 'Scalibr.TraceSize.traceSizes_le']
+
+
+def run_size_limit(ctx):
+    """C10, clause "a scan never hands a file larger than the size limit to any extractor", on the path the C05 harness owns:
+    scalibr.ScanContainer -> trace.PopulateLayerDetails -> filesystem.Run. Real images in which ONE package file has a different
+    size in every layer (around the limit: L-1, L, L+1, far above, far below; deleted, untouched, empty layers in between) are scanned
+    with the real ScanContainer, MaxFileSize in {0,5,7,8,16,17,40,4096} and MaxInodes in {0,50,1000}, with an extractor that records
+    how many bytes every Extract call is handed. Oracle: every recorded size is at most the limit (when one is set) - the statement of
+    C10_trace_sizes; tie: the recorded sizes, in call order, equal the model's (Model/TraceSize.lean: main scan of the final view,
+    then the trace walking down the views). The caller (checks/c10.py) audits SIZE_THEOREMS in SIZE_MODULE."""
+    ok, _ = ctx.lean_build([SIZE_MODULE, 'drv_c05'])
+
+    def sizes(f):
+        v = f.get('sizes', '-')
+        return [] if v == '-' else [int(x) for x in v.split('.')]
+
+    def oracle(case, fi, fm):
+        if fi.get('_') == 'panic':
+            return 'the implementation panicked'
+        if 'sizes' not in fi:
+            return None
+        limit = int(case.split(' ')[1])
+        over = [s for s in sizes(fi) if limit > 0 and s > limit]
+        if over:
+            return ('ScanContainer with MaxFileSize=%d handed %s bytes to an extractor (sizes per Extract call: %s; the bound the '
+                    'specification prints is %s)' % (limit, ', '.join(map(str, over)), fi['sizes'], fm.get('bound')))
+        return None
+
+    def nontrivial(case, fi, fm):
+        limit = int(case.split(' ')[1])
+        ws = [int(o[1:]) for o in case.split(' ')[3].split(',') if o.startswith('w')]
+        return limit > 0 and len(sizes(fi)) >= 1 and any(w > limit for w in ws)
+
+    def classify(case, fi, fm):
+        t = case.split(' ')
+        ws = [int(o[1:]) for o in t[3].split(',') if o.startswith('w')]
+        return 'sizes limit=%s inodes=%s calls=%s older-over-limit=%s' % (t[1], t[2], min(len(sizes(fi)), 3), int(int(t[1]) > 0 and any(w > int(t[1]) for w in ws)))
+
+    n = {'quick': 2500, 'thorough': 40000}[ctx.tier]
+    args = ['-seed', str(ctx.seed), '-n', str(n), '-tier', 'quick', '-only', 'sizes', '-also', lib.VERIF + '/corpus/C05/sizes.case']
+    st = lib.standard_stream(ctx, gen='c05gen', driver='drv_c05', gen_args=args, compare_keys=['_', 'sizes'],
+                             nontrivial=nontrivial, oracle=oracle, classify=classify)
+    return ok and st
+
+
 def run(ctx):
     ctx.trusted = ['Lean 4.33.0 kernel', 'axioms: propext, Quot.sound, Classical.choice at most (see theorems.*.axioms)',
                    'harness/cmd/c05gen (go-containerregistry images with history, Scanner.ScanContainer, fake extractor) + lean/Drivers/C05.lean line protocol',
@@ -39,8 +86,8 @@ def run(ctx):
                        'one extractor per file, one location per package: the cache key (location, layer index) then determines the extraction result',
                        'filesystem.Run inside the trace fails only through the context (ErrorOnFSErrors and MaxInodes do not reach it): cancellation is modelled as "after k re-extractions"; extraction is a function of the file content; an Extract error does not drop the packages it returned',
                        'package identity = (purl, Locations[0]); the fake extractor emits purls pkg:generic/<name>@<version>, names are shared between versions']
-    ctx.rule = ('case = history of 1..6 entries (E empty layer | layer with one op per file: k keep, d whiteout, w<digits> rewrite with these packages (a digit is a (name, version) pair; digits d and d+4 are the SAME name at versions 1 and 2, so files hold one name at two versions, versions get bumped, and the same name@version sits at several locations), s<digits> replace the location by a symlink to such a list), 1..3 files, history mode H/N/S/G (full; none, last entry dropped, one entry too many: the last three usually take the fallback of initializeChainLayers, where the specification (Spec.specChain) says one chain layer per v1 layer, Index = the ordinal of the layer, no command), optionally the context cancelled after k re-extractions of the trace; '
-                'thorough adds every history of <=4 entries over one file with packages p1@1, p1@2, p2@1 (11 ops per entry; histories of 3-4 entries also cancelled after the first re-extraction). non-trivial = more than two chain layers and a non-empty final inventory; '
+    ctx.rule = ('case = history of 1..6 entries (E empty layer | layer with one op per file: k keep, d whiteout, w<digits> rewrite with these packages (a digit is a (name, version) pair; digits d and d+4 are the SAME name at versions 1 and 2, so files hold one name at two versions, versions get bumped, and the same name@version sits at several locations), s<digits> replace the location by a symlink to such a list, a<n>/r<n> delete by whiteout / replace by a regular file the directory n levels above the file — files sit up to three directories deep and share no ancestor, because a deleted directory re-created for a SIBLING is the known C04 finding C04/recreate-after-whiteout), 1..3 files, history mode H/N/S/G (full; none, last entry dropped, one entry too many: the last three usually take the fallback of initializeChainLayers, where the specification (Spec.specChain) says one chain layer per v1 layer, Index = the ordinal of the layer, no command), optionally the context cancelled after k re-extractions of the trace; '
+                'thorough adds every history of <=4 entries over one file with packages p1@1, p1@2, p2@1 (15 ops per entry, ancestor deletions at every level included; histories of 3-4 entries also cancelled after the first re-extraction). non-trivial = more than two chain layers and a non-empty final inventory; '
                 'distinct = distinct case lines. oracle: every reported package must carry Index = least L with the package in every view L..last (computed by the Lean driver from the case), '
                 'the DiffID of that chain layer\'s v1 layer and its CreatedBy; a package without LayerDetails is accepted only when the context was cancelled')
     ok, _ = ctx.lean_build(['Scalibr.Properties.C05', 'drv_c05'])
@@ -87,8 +134,8 @@ def run(ctx):
         mode, nf, ls = _layers(case)
         npk = 0 if fm.get('pk', '-') == '-' else fm['pk'].count(',') + 1
         unset = fi.get('pk', '').count('@nil')
-        return 'mode=%s entries=%d pkgs=%s%s%s%s' % (mode, len(ls), npk if npk < 3 else '3+', ' empty-layers' if 'E' in ls else '',
-                                                  ' symlink' if any('/s' in l for l in ls) else '',
+        return 'mode=%s entries=%d pkgs=%s%s%s%s%s' % (mode, len(ls), npk if npk < 3 else '3+', ' empty-layers' if 'E' in ls else '',
+                                                  ' symlink' if any('/s' in l for l in ls) else '', ' ancestor-op' if any('/a' in l or '/r' in l for l in ls) else '',
                                                   (' cancelled(unset=%s)' % ('0' if unset == 0 else '1+')) if _cancel(case) else '')
 
     lib.standard_stream(ctx, gen='c05gen', driver='drv_c05', gen_args=['-seed', str(ctx.seed), '-n', str(n), '-tier', ctx.tier],
